@@ -96,12 +96,26 @@ inductive Method | ffill | bfill | constant | mean | median | linear | nearest |
 def checkMethod (m : Method) (value : Option Rat) : Except Err Unit :=
   if (value.isSome ∧ m ≠ .constant) ∨ (m = .constant ∧ value.isNone) then .error .value else .ok ()
 
-/-- `Z.replace(to_replace=missing_values, value=np.nan)` guarded by `if self.missing_values:`
-(a placeholder equal to 0 is falsy, so nothing is replaced) -/
+/-- `Z.replace(to_replace=missing_values, value=np.nan)` guarded by `if self.missing_values is not None:` -/
 def replaceMissing (mv : Option Rat) (z : OSeries) : OSeries :=
   match mv with
   | none => z
-  | some m => if m = 0 then z else z.map (fun x => if x = some m then none else x)
+  | some m => z.map (fun x => if x = some m then none else x)
+
+/-- in-sample prediction at time `i` of `PolynomialTrendForecaster(degree=1)` fitted on `ys` observed at
+times `0 … n-1`: ordinary least squares as sklearn's `LinearRegression` computes it (centre both
+variables, slope from the centred data, `intercept = mean(y) − slope · mean(t)`) -/
+def trendAt (ys : List Rat) (i : Nat) : Rat :=
+  let n : Rat := ys.length
+  let ts : List Rat := (List.range ys.length).map (fun (t : Nat) => (t : Rat))
+  let mt := ts.sum / n
+  let my := ys.sum / n
+  let tc := ts.map (· - mt)
+  let yc := ys.map (· - my)
+  let sxx := (tc.map (fun t => t * t)).sum
+  let coef := if sxx = 0 then 0 else (List.zipWith (· * ·) tc yc).sum / sxx
+  let intercept := my - coef * mt
+  intercept + coef * (i : Rat)
 
 /-- the method's own fill (before the final ffill/backfill that every method gets) -/
 def stage1 (m : Method) (value : Option Rat) (z : OSeries) : OSeries :=
@@ -110,9 +124,11 @@ def stage1 (m : Method) (value : Option Rat) (z : OSeries) : OSeries :=
   | .ffill => ffill z
   | .bfill => bfill z
   | .drift =>
-      -- NaN are filled by ffill + backfill BEFORE the trend is fitted and the result is assigned
-      -- back to Z, so `Z.fillna(value=Z_pred)` finds nothing left to fill
-      bfill (ffill z)
+      -- `Z_filled = Z.ffill().bfill()`; degree-1 trend fitted on `Z_filled`; `Z.fillna(value=Z_pred)`
+      let filled := validValues (bfill (ffill z))
+      z.zipIdx.map (fun p => match p.1 with
+        | some v => some v
+        | none => some (trendAt filled p.2))
   | .mean => fillValue (meanValid z) z
   | .median => fillValue (medianValid z) z
   | .linear => interpLinear z
